@@ -16,7 +16,10 @@ def st_instrument(draw, cfg, idx, sizes_kind, expiry_h=240, underlying=None):
     if dyadic:
         # binary-exact prices: a level can sit exactly on mark x multiple (1.5, 2, 3), the boundary of a capped order
         tick = D(1) / D(2048)
-    mark_ticks = draw(st.integers(2, 12)) if dyadic else draw(st.integers(4, 380))
+    # 'deep': expensive (deep in the money) options - neighbouring price levels lie within 0.1% of each other, so the
+    # +-0.1% window of a limit price can hold more than one level (only the first one is traded)
+    deep = not dyadic and draw(st.integers(0, 5)) == 0
+    mark_ticks = draw(st.integers(2, 12)) if dyadic else (draw(st.integers(1100, 2400)) if deep else draw(st.integers(4, 380)))
     half = draw(st.sampled_from([0, 0, 1]))  # mark on the grid or between two grid points
     mark = D(mark_ticks) * tick + (tick / 2 if half else 0)
     na, nb = draw(st.integers(0, 8)), draw(st.integers(0, 8))
@@ -32,13 +35,13 @@ def st_instrument(draw, cfg, idx, sizes_kind, expiry_h=240, underlying=None):
     p = mark_ticks + (1 if half else draw(st.integers(0, 2)))
     for _ in range(na):
         asks.append([float(D(p) * tick), size()])
-        p += draw(st.integers(1, 6))
+        p += 1 if deep and draw(st.booleans()) else draw(st.integers(1, 6))
     p = mark_ticks - draw(st.integers(0, 2))
     for _ in range(nb):
         if p <= 0:
             break
         bids.append([float(D(p) * tick), size()])
-        p -= draw(st.integers(1, 6))
+        p -= 1 if deep and draw(st.booleans()) else draw(st.integers(1, 6))
     from vf.deribit import inst_name
 
     return {"name": inst_name(cfg, expiry_h, strike, kind), "type": kind, "strike": strike, "expiry_h": expiry_h, "mark": float(mark), "underlying": under,
